@@ -85,6 +85,12 @@ def device_script(rng, *, reject: bool = False) -> Tuple[str, List[str]]:
     return "\n".join(lines) + "\n", libs
 
 
+_PRIOR_SCRIPT = (
+    'from Reduino import target\ntarget("COM9")\nfrom Reduino.Actuators import Led\nfrom Reduino.Utils import sleep\n'
+    "led = Led(13)\nwhile True:\n    led.toggle()\n    sleep(100)\n"
+)
+
+
 class E9Target(Engine):
     name = "e9-target"
     property_id = "C12"
@@ -101,7 +107,8 @@ class E9Target(Engine):
     rule = (
         "fault enumeration: {no fault + each of 11 fault points} x {upload} x {pio present} is enumerated completely per "
         "batch (thorough adds seeded pairs); scripts (device mix -> needed libraries), ports and registry / near-miss "
-        "(platform, board) pairs are sampled; non-trivial = pipeline got past validation; distinct = digest of the "
+        "(platform, board) pairs are sampled; a third of the cases are preceded by a successful target(upload=True) in the "
+        "same process; non-trivial = pipeline got past validation; distinct = digest of the "
         "recorded effect history"
     )
 
@@ -150,6 +157,8 @@ class E9Target(Engine):
             "pio_present": pio_present,
             "faults": sorted(set(faults)),
             "real_build": rng.random() < 0.33,
+            # an earlier, successful target(upload=True) in the same process: nothing it did may carry over
+            "prior_success": rng.random() < 0.35,
         }
 
     def execute(self, case: dict) -> Outcome:
@@ -159,6 +168,32 @@ class E9Target(Engine):
         from Reduino.transpile.parser import parse
 
         target = _real_target()
+        import Reduino
+        import Reduino.toolchain.pio as pio_mod
+
+        # every case starts from the module state of a fresh interpreter as far as memoisation goes
+        for mod in (Reduino, pio_mod):
+            for obj in list(vars(mod).values()):
+                clear = getattr(obj, "cache_clear", None)
+                if callable(clear):
+                    clear()
+        if case.get("prior_success"):
+            prior_box = fresh_sandbox("c12p")
+            try:
+                prior_main = prior_box / "user" / "sketch.py"
+                prior_main.parent.mkdir(parents=True)
+                prior_main.write_text(_PRIOR_SCRIPT, encoding="utf-8")
+                with pc_world(Effects(), prior_box, pio_present=True, faults={}, build_hook=lambda project: 0, main_file=prior_main):
+                    import contextlib
+                    import io
+
+                    try:
+                        with contextlib.redirect_stderr(io.StringIO()):
+                            target("COM9", upload=True)
+                    except Exception:
+                        pass
+            finally:
+                shutil.rmtree(prior_box, ignore_errors=True)
         faults = {f: True for f in case["faults"]}
         sandbox = fresh_sandbox("c12")
         main_file = sandbox / "user" / "sketch.py"
